@@ -19,6 +19,32 @@ use crate::{Error, Result};
 #[cfg(test)]
 mod test;
 
+/// Releases what `setup_io_uring` has acquired so far (mappings, then the ring fd) when it
+/// returns early with an error.
+struct SetupGuard {
+    fd: Fd,
+    maps: [(usize, usize); 3],
+    num_maps: usize,
+}
+
+impl SetupGuard {
+    fn mapped(&mut self, ptr: usize, len: usize) {
+        self.maps[self.num_maps] = (ptr, len);
+        self.num_maps += 1;
+    }
+}
+
+impl Drop for SetupGuard {
+    fn drop(&mut self) {
+        for (ptr, len) in &self.maps[..self.num_maps] {
+            if let Some(len) = NonZeroUsize::new(*len) {
+                let _ = unsafe { crate::unistd::munmap(*ptr, len) };
+            }
+        }
+        let _ = crate::unistd::close(self.fd);
+    }
+}
+
 /// Creates an `IoUring` instance with shared memory between user and kernel space.  
 /// `entries` are the number of available slots in the submission queue,  
 /// 'flags' are passed to `io_uring_setup`.  
@@ -34,6 +60,11 @@ pub fn setup_io_uring(
 ) -> Result<IoUring> {
     let mut params = IoUringParams::new(flags, sq_thread_cpu, sq_thread_idle);
     let fd = io_uring_setup(entries, &mut params)?;
+    let mut guard = SetupGuard {
+        fd,
+        maps: [(0, 0); 3],
+        num_maps: 0,
+    };
     let mut cq_size = core::mem::size_of::<IoUringCompletionQueueEntry>();
     if flags.contains(IoUringParamFlags::IORING_SETUP_CQE32) {
         cq_size += core::mem::size_of::<IoUringCompletionQueueEntry>();
@@ -60,10 +91,11 @@ pub fn setup_io_uring(
             Some(fd),
             i64::from(IORING_OFF_SQ_RING),
         )?;
+        guard.mapped(sq_ring_ptr, sq_ring_sz);
         let cq_ring_ptr =
             if params.0.features & IoUringFeatFlags::IORING_FEAT_SINGLE_MMAP.bits() == 0 {
                 // cq offset from https://kernel.dk/io_uring.pdf
-                mmap(
+                let cq_ring_ptr = mmap(
                     None,
                     // Safety: The kernel rejects 0 entries as `EINVAL` and the size isn't 0
                     NonZeroUsize::new_unchecked(cq_ring_sz),
@@ -72,7 +104,9 @@ pub fn setup_io_uring(
                     MapAdditionalFlags::MAP_POPULATE,
                     Some(fd),
                     i64::from(IORING_OFF_CQ_RING),
-                )?
+                )?;
+                guard.mapped(cq_ring_ptr, cq_ring_sz);
+                cq_ring_ptr
             } else {
                 sq_ring_ptr
             };
@@ -97,6 +131,7 @@ pub fn setup_io_uring(
             Some(fd),
             i64::from(IORING_OFF_SQES),
         )?;
+        guard.mapped(sqes, sqe_size * params.0.sq_entries as usize);
         let sqes = NonNull::new_unchecked(sqes as *mut IoUringSubmissionQueueEntry);
         let cq_khead = into_non_null(cq_ring_ptr, params.0.cq_off.head as usize)?;
         let cq_ktail = into_non_null(cq_ring_ptr, params.0.cq_off.tail as usize)?;
@@ -115,6 +150,8 @@ pub fn setup_io_uring(
         for index in 0..sq_ring_entries {
             (*sq_array.as_ptr().add(index as usize)).store(index, Ordering::Release);
         }
+        // From here on the `IoUring` owns the fd and the mappings
+        core::mem::forget(guard);
         // Safety: All pointers are guaranteed to not be a null-pointer,
         // we get them from a successful `mmap`
         Ok(IoUring {
